@@ -56,6 +56,13 @@ static void arena_init() {
 }
 static inline bool in_arena(const void* p) { return (size_t)((const char*)p - arena_base) < ARENA && arena_base; }
 
+struct AllocSite { void* pc; long n; };
+static AllocSite alloc_sites[512]; static int n_alloc_sites = 0; static bool track_sites = false;
+static void note_site(void* pc) {
+  if (!track_sites) return;
+  for (int i = 0; i < n_alloc_sites; i++) if (alloc_sites[i].pc == pc) { alloc_sites[i].n++; return; }
+  if (n_alloc_sites < 512) alloc_sites[n_alloc_sites++] = {pc, 1};
+}
 static void* arena_alloc(size_t size, size_t align) {
   if (arena_state.load(std::memory_order_acquire) != 2) arena_init();
   if (align < GRAN) align = GRAN;
@@ -97,7 +104,8 @@ uint32_t block_of(const void* p) {
 // child-side state
 // ------------------------------------------------------------------------------------------
 static constexpr int MAXT = 8;
-enum Status { RUNNABLE = 0, PARKED = 1, BLOCKED = 2, DONE = 3 };
+enum Status { RUNNABLE = 0, PARKED = 1, BLOCKED = 2, DONE = 3, WAITSTART = 4 };
+static int start_after[8];
 enum Mode { M_DFS = 0, M_RANDOM = 1, M_REPLAY_TIDS = 2 };
 
 static bool g_in_child = false;
@@ -197,6 +205,8 @@ static void fwake(std::atomic<int>* a) { a->store(1, std::memory_order_release);
 
 static void refresh_parked() {
   for (int t = 0; t < nthreads; t++)
+    if (status[t] == WAITSTART && status[start_after[t]] == DONE) status[t] = RUNNABLE;
+  for (int t = 0; t < nthreads; t++)
     if (status[t] == PARKED && park_epoch[t] != write_epoch) { status[t] = RUNNABLE; spin_n[t] = 0; }
 }
 
@@ -216,7 +226,7 @@ static int pick(int me) {
   for (int t = 0; t < nthreads; t++) if (t != me && status[t] == RUNNABLE) opts[n++] = t;
   if (n == 0) {
     bool any_parked = false, any_blocked = false;
-    for (int t = 0; t < nthreads; t++) { any_parked |= status[t] == PARKED; any_blocked |= status[t] == BLOCKED; }
+    for (int t = 0; t < nthreads; t++) { any_parked |= status[t] == PARKED; any_blocked |= status[t] == BLOCKED || status[t] == WAITSTART; }
     if (!any_parked && !any_blocked) return -1; // all done
     if (!any_parked || ++allparked_rounds > 8) finish_child("deadlock", steps);
     for (int t = 0; t < nthreads; t++) if (status[t] == PARKED) { status[t] = RUNNABLE; spin_n[t] = 0; opts[n++] = t; }
@@ -330,6 +340,12 @@ void ret(long r, long v) {
       logf("{\"e\":\"solo\",\"t\":%d,\"op\":\"%s\",\"a\":%ld,\"b\":0,\"r\":%ld,\"v\":1}\n", t, cur_op[t], solo_at, steps - solo_start_step);
       finish_child("solo_ok", steps - solo_start_step);
     }
+  }
+}
+void dump_alloc_sites() {
+  for (int i = 0; i < n_alloc_sites; i++) {
+    char op[64]; snprintf(op, sizeof op, "allocsite:%lx", (unsigned long)alloc_sites[i].pc);
+    ev("ev", op, alloc_sites[i].n);
   }
 }
 void point() { sched_point(K_FENCE, nullptr, 0); }
@@ -547,11 +563,11 @@ int pthread_mutex_unlock(pthread_mutex_t* m) {
 // ------------------------------------------------------------------------------------------
 // operator new / delete -> arena
 // ------------------------------------------------------------------------------------------
-void* operator new(size_t n) { return arena_alloc(n, 16); }
-void* operator new[](size_t n) { return arena_alloc(n, 16); }
+void* operator new(size_t n) { note_site(__builtin_return_address(0)); return arena_alloc(n, 16); }
+void* operator new[](size_t n) { note_site(__builtin_return_address(0)); return arena_alloc(n, 16); }
 void* operator new(size_t n, const std::nothrow_t&) noexcept { return arena_alloc(n, 16); }
 void* operator new[](size_t n, const std::nothrow_t&) noexcept { return arena_alloc(n, 16); }
-void* operator new(size_t n, std::align_val_t a) { return arena_alloc(n, (size_t)a); }
+void* operator new(size_t n, std::align_val_t a) { note_site(__builtin_return_address(0)); return arena_alloc(n, (size_t)a); }
 void* operator new[](size_t n, std::align_val_t a) { return arena_alloc(n, (size_t)a); }
 void* operator new(size_t n, std::align_val_t a, const std::nothrow_t&) noexcept { return arena_alloc(n, (size_t)a); }
 void* operator new[](size_t n, std::align_val_t a, const std::nothrow_t&) noexcept { return arena_alloc(n, (size_t)a); }
@@ -598,7 +614,7 @@ static ChildResult run_child(const std::function<Scenario(const std::string&)>& 
   if (pid < 0) { perror("fork"); _exit(2); }
   if (pid == 0) {
     close(fd[0]); out_fd = fd[1];
-    g_in_child = true;
+    g_in_child = true; track_sites = true;
     { // all threads of one execution on one core: token hand-over without cross-core wake-ups
       cpu_set_t cs; CPU_ZERO(&cs); long nc = sysconf(_SC_NPROCESSORS_ONLN); if (nc < 1) nc = 1;
       CPU_SET((int)(getppid() % nc), &cs); sched_setaffinity(0, sizeof cs, &cs); }
@@ -613,7 +629,10 @@ static ChildResult run_child(const std::function<Scenario(const std::string&)>& 
     Scenario sc = make(prog);
     nthreads = sc.nthreads;
     if (nthreads > MAXT) _exit(2);
-    for (int t = 0; t < nthreads; t++) { status[t] = RUNNABLE; gotok[t].store(0); }
+    for (int t = 0; t < nthreads; t++) {
+      status[t] = RUNNABLE; gotok[t].store(0); start_after[t] = -1;
+      if ((size_t)t < sc.after.size() && sc.after[t] >= 0 && sc.after[t] < nthreads) { status[t] = WAITSTART; start_after[t] = sc.after[t]; }
+    }
     if (sc.setup) sc.setup();
     std::vector<std::thread> th;
     for (int t = 0; t < nthreads; t++) th.emplace_back(thread_main, t, &sc.body);
